@@ -18,6 +18,8 @@ inductive Ev
   | post (p k d : Nat) (rc : Int)
   | wakeup (rc : Int)
   | wait (max : Nat) (evs : List Item)
+  | wbegin (max : Nat)                          -- a wait has started and is parked in front of its doorbell read
+  | wread                                      -- that wait has read (reset) the doorbell
   | qnew (cap maxMsg flags : Nat) (ok : Bool)
   | enq (m : Msg) (r : EnqRes)
   | unblocked (p v : Nat)
@@ -50,6 +52,7 @@ inductive Cmd
   | post (p k d : Nat)
   | wakeup
   | wait (max : Nat)
+  | wbegin (max : Nat) | wread | wend          -- one wait, step by step (other calls may come in between)
   | qnew (cap maxMsg flags : Nat)
   | enq (p v size : Nat)
   | deq (buf : Nat)
@@ -103,8 +106,16 @@ def Wk.joinUntimed (w : Wk) : Option JoinRes := if w.th = .exited then some .rc1
 def Wk.runToExit (w : Wk) : Wk :=
   ((w.threadStep true).threadStep true).threadStep true
 
+/-- where the (only) thread inside a step-by-step `async_runtime_wait` is parked -/
+inductive SeqPhase
+  | idle
+  | polled (max : Nat)       -- epoll_wait returned, doorbell not read yet
+  | drained (max : Nat)      -- doorbell read, ring not taken yet
+  deriving Repr, DecidableEq
+
 structure World where
   rt : Rt := {}
+  cons : SeqPhase := .idle
   q : Option Q := none
   blocked : Option Msg := none
   ws : List (Nat × Wk) := []
@@ -121,7 +132,21 @@ def stepE (s : World) : Cmd → World × List Ev
   | .wakeup => ({ s with rt := s.rt.ringBell }, [.wakeup 0])
   | .wait max =>
     if max = 0 then (s, [.skip "wait-max-0"])
+    else if s.cons ≠ .idle then (s, [.skip "wait-in-progress"])
     else ({ s with rt := (s.rt.wait max).1 }, [.wait max (s.rt.wait max).2])
+  | .wbegin max =>
+    if max = 0 then (s, [.skip "wait-max-0"])
+    else if s.cons ≠ .idle then (s, [.skip "wait-in-progress"])
+    else if s.rt.poll then ({ s with cons := .polled max }, [.wbegin max])
+    else (s, [.wait max []])                                   -- epoll_wait(timeout 0): nothing readable
+  | .wread =>
+    match s.cons with
+    | .polled m => ({ s with rt := s.rt.drain, cons := .drained m }, [.wread])
+    | _ => (s, [.skip "no-wait-parked"])
+  | .wend =>
+    match s.cons with
+    | .drained m => ({ s with rt := (s.rt.pop m).1, cons := .idle }, [.wait m (s.rt.pop m).2])
+    | _ => (s, [.skip "no-wait-parked"])
   | .qnew cap mm fl =>
     match s.q with
     | some _ => (s, [.skip "queue-exists"])
@@ -244,6 +269,8 @@ def render : Ev → String
   | .post p k d rc => s!"post {p} {k} {d} {rc}"
   | .wakeup rc => s!"wakeup {rc}"
   | .wait max evs => (s!"wait {max} {evs.length} " ++ renderItems evs).trimAsciiEnd.toString
+  | .wbegin max => s!"wbegin {max} parked"
+  | .wread => "wread"
   | .qnew c m f ok => s!"qnew {c} {m} {f} {if ok then "ok" else "null"}"
   | .enq m r => s!"enq {m.p} {m.v} {m.size} " ++ (match r with | .ok => "ok" | .fail => "fail" | .blocked => "blocked" | .crash => "crash")
   | .unblocked p v => s!"unblocked {p} {v}"
